@@ -176,3 +176,8 @@ func VerifC18_Twin() {
 	verifC18(1, false, int64(time.Second))
 	verifAssert(false, "twin-false")
 }
+
+// larger bounds for the thorough tier
+func VerifC18_10s_5()            { verifC18(5, false, int64(10*time.Second)) }
+func VerifC18_RuntimeLate_10s_4() { verifC18Runtime(4, int64(10*time.Second)) }
+func VerifC18_RuntimeLate_7s_3()  { verifC18Runtime(3, int64(7*time.Second)) }
